@@ -214,7 +214,7 @@ def encode(mode, d):
         a, b = ops
         size = opsize(a)
         if b[0] == "imm":
-            if a[0] == "reg" and form != "c7":
+            if a[0] == "reg" and form != "c7" and not (size == 64 and b[2] == 32):
                 _osize_prefix(e, size, True)
                 e.opcode = bytes([(0xB0 if size == 8 else 0xB8) + e.use_rm_reg(a[1])])
                 e.tail = imm_bytes(size, b[1])          # 64-bit: movabs imm64
